@@ -4,6 +4,9 @@ package c11
 import (
 	"bytes"
 	"fmt"
+	"os"
+	"os/exec"
+	"path/filepath"
 	"regexp"
 	"strconv"
 	"strings"
@@ -621,5 +624,105 @@ func FuzzListing(f *testing.F) {
 	}, func(b []byte) {
 		p := spec.Parse(b)
 		fz.Observe(p.OK && len(p.Ops) > 1, harness.Hash(b), nil)
+	})
+}
+
+// ---------------------------------------------------------------- the disivg command
+
+type ToolCase struct {
+	Inputs []ops.Hex `json:"inputs"` // disassembled one after the other into the same -o file
+}
+
+func checkTool(c ToolCase) error {
+	tool := os.Getenv("VERIF_DISIVG")
+	if tool == "" {
+		return nil
+	}
+	dir, err := os.MkdirTemp("", "c11-disivg-")
+	if err != nil {
+		return err
+	}
+	defer os.RemoveAll(dir)
+	out := filepath.Join(dir, "listing.txt")
+	for i, in := range c.Inputs {
+		src := filepath.Join(dir, fmt.Sprintf("in%d.ivg", i))
+		if err := os.WriteFile(src, in, 0o644); err != nil {
+			return err
+		}
+		want, werr := decode.Disassemble(append([]byte{}, in...))
+		before, _ := os.ReadFile(out)
+		runErr := exec.Command(tool, "-o", out, src).Run()
+		if werr != nil {
+			if runErr == nil {
+				return harness.Violatef("c11/tool-accepts", "disivg exits 0 for input %d, which Disassemble rejects (%v)", i, werr)
+			}
+			after, _ := os.ReadFile(out)
+			if !bytes.Equal(before, after) {
+				return harness.Violatef("c11/tool-output-on-error", "disivg changed the output file although input %d is rejected", i)
+			}
+			continue
+		}
+		if runErr != nil {
+			return harness.Violatef("c11/tool-fails", "disivg fails (%v) on input %d, which Disassemble accepts", runErr, i)
+		}
+		got, _ := os.ReadFile(out)
+		if !bytes.Equal(got, want) {
+			return harness.Violatef("c11/tool-file", "after disassembling input %d into the same -o file, the file holds %d bytes; the listing of that input has %d (first difference at byte %d)", i, len(got), len(want), firstDiffAt(got, want))
+		}
+		stdout, serr := exec.Command(tool, src).Output()
+		if serr != nil || !bytes.Equal(stdout, want) {
+			return harness.Violatef("c11/tool-stdout", "disivg to stdout differs from Disassemble for input %d (%v)", i, serr)
+		}
+	}
+	return nil
+}
+
+func firstDiffAt(a, b []byte) int {
+	n := len(a)
+	if len(b) < n {
+		n = len(b)
+	}
+	for i := 0; i < n; i++ {
+		if a[i] != b[i] {
+			return i
+		}
+	}
+	return n
+}
+
+var subTool = harness.Define("disivg-tool", "the cmd/disivg command built from the same tree: sequences of 2-4 inputs (generated streams of different lengths, some rejected) disassembled one after the other into the same -o file and to stdout; the file and stdout must equal decode.Disassemble of the current input, rejected inputs exit non-zero and leave the file alone; non-trivial = a shorter listing follows a longer one", checkTool)
+
+func TestDisivgTool(t *testing.T) {
+	if os.Getenv("VERIF_DISIVG") == "" {
+		harness.Note("disivg-tool: VERIF_DISIVG not set (run through ./check), sub-check skipped")
+		t.Skip()
+	}
+	harness.OnlyFirstShard(t)
+	files := corpus.Testdata()
+	harness.Rapid(t, harness.N(12, 60), func(t *rapid.T) {
+		var c ToolCase
+		n := rapid.IntRange(2, 4).Draw(t, "n")
+		for i := 0; i < n; i++ {
+			switch rapid.IntRange(0, 3).Draw(t, "src") {
+			case 0:
+				c.Inputs = append(c.Inputs, files[rapid.IntRange(0, len(files)-1).Draw(t, "file")].Data)
+			case 1:
+				c.Inputs = append(c.Inputs, []byte{0x89, 'I', 'V', 'G', 0x00})
+			case 2:
+				b, _, _ := gen.Stream(t, gen.StreamCfg{AllowOpen: true, MaxRun: 20})
+				c.Inputs = append(c.Inputs, gen.Mutate(t, b, b))
+			default:
+				b, _, _ := gen.Stream(t, gen.StreamCfg{AllowOpen: true, MaxRun: 20})
+				c.Inputs = append(c.Inputs, b)
+			}
+		}
+		shrinks := false
+		for i := 1; i < len(c.Inputs); i++ {
+			if len(c.Inputs[i]) < len(c.Inputs[i-1]) {
+				shrinks = true
+			}
+		}
+		subTool.See(c, shrinks, harness.HashJSON(c))
+		subTool.Run(t, c)
 	})
 }
